@@ -47,7 +47,7 @@ Section LiveN.
   Notation PHI0 := (Phi0 psi_grad_full grad_psi lb ub P x_in ψ g Lf).
 
   Hypothesis Hpsi : forall x, psi_grad psi_grad_full x = (ψ x, g x).
-  Hypothesis Hco : coherent psi_grad_full psi_yhat grad_L P.
+  Hypothesis Hco : coherent psi_grad_full psi_yhat grad_L grad_psi P.
   Hypothesis Hglen : forall x, length x = n -> length (g x) = n.
   Hypothesis Hqub : forall u d, length u = n -> length d = n -> ψ (vadd u d) <= ψ u + vdot (g u) d + Lf / 2 * vsqnorm d.
   Hypothesis Hinf : forall z, all_in_box lb ub z -> ψinf <= ψ z.
